@@ -782,6 +782,10 @@ func c01Scenarios(res *eng.Result, ss *sigSet) {
 			m(`container main1 { leaf l { type string; } } container s1 { leaf l { type string; } } container s2 { leaf l { type string; } }`),
 			modset{main: c01Hdr + `include s1m; revision 0; leaf x { type string; } container main1 { leaf l { type string; } } }`,
 				mods: map[string]string{"s1m": `submodule s1m { belongs-to nf { prefix nf; } include s2m; container s1 { leaf l { type string; } } }`, "s2m": `submodule s2m { belongs-to nf { prefix nf; } container s2 { leaf l { type string; } } }`}}},
+		{"submodule-of-submodule-uses-its-own-grouping-and-typedef",
+			m(`container main1 { leaf l { type string; } } container s1 { leaf a { type string; } } container s2 { leaf b { type string; } leaf t { type int32 { range "1..9"; } } }`),
+			modset{main: c01Hdr + `include s1m; revision 0; leaf x { type string; } container main1 { leaf l { type string; } } }`,
+				mods: map[string]string{"s1m": `submodule s1m { belongs-to nf { prefix nf; } include s2m; grouping g1 { leaf a { type string; } } container s1 { uses g1; } }`, "s2m": `submodule s2m { belongs-to nf { prefix nf; } typedef t2 { type int32 { range "1..9"; } } grouping g2 { leaf b { type string; } } container s2 { uses g2; leaf t { type t2; } } }`}}},
 		{"submodule-grouping-used-in-main-with-typedef",
 			m(`container a { leaf l { type string { length "1..5"; } default "d"; } }`),
 			modset{main: c01Hdr + `include s1m; revision 0; leaf x { type string; } container a { uses sg; } }`,
